@@ -27,6 +27,32 @@ type VariantC05 struct {
 	ChunkSeed  uint64    `json:"chunk_seed,omitempty"`
 }
 
+// summingShapes: the commands whose output is a sum over several records, recipes or categories
+var summingShapes = []string{"reg", "reg -s", "reg -s -g", "reg --totals-only", "bal", "bal -c", "bal -s", "bal -s -c", "summary", "report totals", "report element-total", "csv database-resolved"}
+
+func genFlatSum(t *rapid.T) (book, log []Block) {
+	cats := []string{"veg", "bread", "cheese", "fruit", "meat", "drink", "nuts"}
+	k := rapid.IntRange(3, 6).Draw(t, "flat_k")
+	el := rapid.SampledFrom(elementPool).Draw(t, "flat_el")
+	cancel := rapid.IntRange(0, 2).Draw(t, "flat_cancel") == 2
+	day := Block{Head: baseDay.Format(defaultDateLayout)}
+	for i := 0; i < k; i++ {
+		name := cats[i] + "/" + rapid.SampledFrom([]string{"100g", "piece", "x/y"}).Draw(t, fmt.Sprintf("flat_n%d", i))
+		q := rapid.SampledFrom([]string{"0.105", "0.56", "1.93", "0.045", "0.135", "0.255", "0.015", "1.005", "2.675"}).Draw(t, fmt.Sprintf("flat_q%d", i))
+		if cancel {
+			q = rapid.SampledFrom([]string{"1e16", "-1e16", "1", "0.3", "1e15", "-1e15"}).Draw(t, fmt.Sprintf("flat_c%d", i))
+		}
+		book = append(book, Block{Head: name, Items: []Item{{el, q}, {"kcal", "10"}}})
+		day.Items = append(day.Items, Item{name, rapid.SampledFrom([]string{"1", "1", "3", "0.1"}).Draw(t, fmt.Sprintf("flat_l%d", i))})
+	}
+	log = []Block{day}
+	if rapid.Bool().Draw(t, "flat_two_days") {
+		d2 := Block{Head: baseDay.AddDate(0, 0, 1).Format(defaultDateLayout), Items: append([]Item{}, day.Items[:k-1]...)}
+		log = append(log, d2)
+	}
+	return book, log
+}
+
 func genC05(thorough bool) func(t *rapid.T) Case {
 	names := shapeNames(nil)
 	return func(t *rapid.T) Case {
@@ -46,7 +72,18 @@ func genC05(thorough bool) func(t *rapid.T) Case {
 		case 14, 15:
 			lo.LongDays = true
 		}
-		c.Base = genCLIBase(t, baseOpts{shapes: names, book: bo, log: lo, longNames: true, hugeFiles: true})
+		use := names
+		if (bo.Boundary || bo.Extreme) && rapid.Bool().Draw(t, "summing_shape") {
+			// half of the rounding-boundary and extreme-value cases go to the commands that add numbers up
+			use = summingShapes
+		}
+		c.Base = genCLIBase(t, baseOpts{shapes: use, book: bo, log: lo, longNames: true, hugeFiles: true})
+		if rapid.IntRange(0, 9).Draw(t, "flat_sum") == 9 {
+			// a handful of foods in as many top-level categories, all carrying one element, with amounts whose
+			// sum lies on a rounding boundary or cancels: any total computed by walking a map is order-dependent here
+			c.Base.Book, c.Base.Log = genFlatSum(t)
+			c.Base.Inv = genInvocation(t, summingShapes, c.Base.Book, c.Base.Log)
+		}
 		if rapid.IntRange(0, 3).Draw(t, "extra_locals") == 3 {
 			c.Base.Inv.Locals = genExtraLocals(t, c.Base.Inv.Shape)
 		}
@@ -101,6 +138,7 @@ func (c *CaseC05) baseWorld() World {
 // Eval compares every variant with the base run.
 func (c *CaseC05) Eval(ob *Obs) []Finding {
 	w := c.baseWorld()
+	w.Order = OrderPlan{Mode: "asc"} // the base run; every variant brings its own schedule
 	shape := c.Base.Inv.Shape
 	base := ob.run(w)
 	var out []Finding
